@@ -313,7 +313,7 @@ class ConformationContainer:
         self,
         groups: Iterable[Group],
         get_coupled_groups: CallableGroupToGroups,
-    ) -> Iterator[Set[Group]]:
+    ) -> Iterator[List[Group]]:
         """A generator that yields covalently coupled systems.
 
         Args:
@@ -322,15 +322,26 @@ class ConformationContainer:
         Yields:
             covalently coupled systems
         """
-        groups = set(groups)
-        while len(groups) > 0:
+        # Groups hash by identity, so the iteration order of a set of groups
+        # depends on memory addresses. Walk the groups in the given (list)
+        # order instead: with equal pKa values in a system, which group is
+        # penalised must not depend on where objects happen to be allocated.
+        ordered_groups = list(groups)
+        remaining = set(ordered_groups)
+        for group in ordered_groups:
+            if group not in remaining:
+                continue
             # extract a system of coupled groups ...
             system: Set[Group] = set()
             self.get_a_coupled_system_of_groups(
-                groups.pop(), system, get_coupled_groups)
+                group, system, get_coupled_groups)
             # ... and remove them from the list
-            groups -= system
-            yield system
+            remaining -= system
+            in_system = {id(g) for g in system}
+            ordered_system = [g for g in ordered_groups if id(g) in in_system]
+            listed = {id(g) for g in ordered_system}
+            ordered_system += [g for g in system if id(g) not in listed]
+            yield ordered_system
 
     def get_a_coupled_system_of_groups(self, new_group: Group,
                                        coupled_groups: Set[Group],
